@@ -1,5 +1,5 @@
 """C01 — completeness: the recorded witness satisfies every emitted constraint."""
-import tracecheck, progs
+import tracecheck, progs, matrixcases
 
 PID = "C01"
 PROFILE = {"p_ignore": 0.0, "p_valid_inputs": 0.75,
@@ -50,7 +50,11 @@ def post(cov, cases, recs):
 
 
 def run(tier, seed):
-    return tracecheck.run(PID, tier, seed, PROFILE, oracle, n_quick=450, n_thorough=8000, post=post, mask=1 | 2 | 8 | 32 | 128)
+    # deterministic part: every assertion / decomposition / division x operand kinds x the ways a statement can be reached
+    # (true / false guards, nesting, lazy branches, block API), and hash gadgets followed by uses of the shared constants
+    pending = matrixcases.assertion_contexts(tier) + matrixcases.hash_then_use()
+    return tracecheck.run(PID, tier, seed, PROFILE, oracle, n_quick=len(pending) + 450, n_thorough=len(pending) + 8000, post=post, mask=1 | 2 | 8 | 32 | 128,
+                          casegen=matrixcases.with_pending(pending, PROFILE))
 
 
 def replay(payload):
